@@ -89,7 +89,8 @@ pub fn substance_from_formula(
                     _ => Number::one(),
                 };
 
-                let subst = substances.get(symbols.get(sym).unwrap()).unwrap();
+                // The symbol table can name a substance that failed to load.
+                let subst = substances.get(symbols.get(sym).unwrap())?;
                 match subst.get("molar_mass") {
                     Ok(subst_molar_mass) => {
                         let subst_molar_mass = (&subst_molar_mass * &count).unwrap();
